@@ -87,6 +87,12 @@ claim("C08",
       STATIC_NOTE + "dep.go effect summaries. Not decided: numeric effects of refresh across histories.",
       "DESIGN.md §4 C08")
 
+claim("C15",
+      "codec-agreement rule over every hand-written MarshalBinary/UnmarshalBinary pair (wire-struct fields written/read, restored fields assigned), reflective-encodability rule over the type graph of every result type, guard inventory over all UnmarshalBinary implementations and restore-path validators, validating-decoder rule per key-material type",
+      "Decides structurally, for all encodings, that hand-written codecs cannot silently lose or skip a field, that reflectively encoded result types carry no unexported state, and that every recorded refusal on the restore path (decode errors, prime/modulus/Pedersen validation, zero scalars, identity points, threshold, duplicate/missing party) still exists and gates success; it reports as recorded known findings that frost, Doerner and presignature material is restored with no validation at all. Behavioural equivalence of restored objects is NOT decided.",
+      STATIC_NOTE + "Five known findings listed in known_findings.jsonl (types restored by plain reflective CBOR).",
+      "DESIGN.md §4 C15")
+
 for p, why in {
     "C01": "not built yet", "C02": "not built yet", "C03": "not built yet", "C04": "not built yet", "C05": "not built yet",
     "C06": "not built yet", "C07": "not built yet", "C08": "not built yet", "C09": "not built yet", "C10": "not built yet",
